@@ -6,10 +6,15 @@ Driver for C04 case lines (harness/c04/c04.go):
 ```
 C04 <kind> <nvh> { vh <ndom> <dom>… <nrules> { r <prefix> <path> <rx> <nvars> {<name> <value> <rx> <model>}… <nhdrs> {<name> <value> <isregex> <rxid> <rxok>}…
                                                      <ndsl> {<empty 0|1> <id> <compiles 0|1>}… }… }…
-           req <nvars> {<name> <value|!>}… <nhdrs> {<name> <value>}…  rx <n> {<id> <input> <0|1>}…  dx <n> {<id> <t|f|e|n>}…   (e = evaluation error, n = not a boolean)
+           req <map c|b|h|2> <nvars> {<name> <value|!>}… <nhdrs> {<name> <value>}… ps <n> {<:name> <value>}…
+           rx <n> {<id> <input> <0|1>}…  dx <n> {<id> <t|f|e|n>}…   (e = evaluation error, n = not a boolean)
     => <errorName> | panic | ok <vhostIndex|-1> <vh.rule|none> <vh.rule,…|->
 ```
 strings are percent-escaped (`%` alone = empty), `!` = unset / no regex, `<rx>` = `<id>:<compiles 0|1>`.
+`<map>` = the `api.HeaderMap` implementation carrying the request headers: `c` protocol.CommonHeader, `b`
+header.BytesHeader (xprotocol) — both compare names exactly; `h` the HTTP/1 map (fasthttp), `2` the HTTP/2 request map —
+both compare names ignoring case; the headers are listed in the order they were added (a name may repeat on `h`/`2`);
+`ps` lists the HTTP/2 pseudo headers (request line).
 -/
 namespace MosnVerif.Drive.C04
 open MosnVerif.Drive MosnVerif.Model.Route
@@ -116,7 +121,9 @@ def optStr : P (Option Str) := do
 structure Case where
   cfg : Config
   vars : List (Str × Option Str)
+  kind : MapKind
   hdrs : List (Str × Str)
+  pseudo : List (Str × Str)
   rxTab : List (Nat × Str × Bool)
   dxTab : List (Nat × Option Bool)
 
@@ -124,10 +131,16 @@ def caseP : P Case := do
   let n ← nat
   let cfg ← rep n vhCfg
   lit "req"
+  let kt ← next
+  let kind ← (if kt == "c" || kt == "b" then pure MapKind.exact else if kt == "h" then pure MapKind.fold
+    else if kt == "2" then pure MapKind.h2 else failure : P MapKind)
   let nv ← nat
   let vars ← rep nv (do let k ← str; let v ← optStr; pure (k, v))
   let nh ← nat
   let hdrs ← rep nh (do let k ← str; let v ← str; pure (k, v))
+  lit "ps"
+  let np ← nat
+  let pseudo ← rep np (do let k ← str; let v ← str; pure (k, v))
   lit "rx"
   let nr ← nat
   let tab ← rep nr (do let i ← nat; let s ← str; let b ← bit; pure (i, s, b))
@@ -138,7 +151,7 @@ def caseP : P Case := do
     let t ← next
     if t == "t" then pure (i, some true) else if t == "f" then pure (i, some false)
     else if t == "e" || t == "n" then pure (i, (none : Option Bool)) else failure)
-  pure ⟨cfg, vars, hdrs, tab, dtab⟩
+  pure ⟨cfg, vars, kind, hdrs, pseudo, tab, dtab⟩
 
 def lookupStr {β : Type} (l : List (Str × β)) (k : Str) : Option β :=
   match l.find? (fun kv => kv.1 = k) with
@@ -146,7 +159,7 @@ def lookupStr {β : Type} (l : List (Str × β)) (k : Str) : Option β :=
   | none => none
 
 def Case.req (c : Case) : Req :=
-  { var := fun k => (lookupStr c.vars k).join, hdr := fun k => lookupStr c.hdrs k,
+  { var := fun k => (lookupStr c.vars k).join, kind := c.kind, hdrs := c.hdrs, pseudo := c.pseudo,
     dsl := fun i => match c.dxTab.find? (fun r => r.1 = i) with
       | some r => r.2
       | none => none }
@@ -162,7 +175,7 @@ def Case.rxComplete (c : Case) : Bool :=
     (match m.regex with | some r => if r.ok then [r.id] else [] | none => []) ++
     m.variables.flatMap (fun v => match v.regex with | some r => if r.ok then [r.id] else [] | none => []) ++
     m.headers.flatMap (fun h => if h.regex && h.rx.ok then [h.rx.id] else [])))
-  let inputs : List Str := [] :: (c.vars.filterMap (·.2) ++ c.hdrs.map (·.2))
+  let inputs : List Str := [] :: (c.vars.filterMap (·.2) ++ c.hdrs.map (·.2) ++ c.pseudo.map (·.2))
   let dids : List Nat := c.cfg.flatMap (fun vh => vh.routers.flatMap (fun m =>
     m.dsl.filterMap (fun d => if !d.empty && d.ok then some d.id else none)))
   ids.all (fun i => inputs.all (fun s => c.rxTab.any (fun r => r.1 = i ∧ r.2.1 = s))) &&
